@@ -39,8 +39,10 @@ DENSE_TOL = 2.0 / N_MICRO + 1e-4  # 1.1e-3, validated in DESIGN section 4 (C05)
 EXACT_TOL = 1e-9
 # C04, antimeridian segment only: the property allows "the small excess caused by measuring
 # straight map-line pieces with great-circle lengths" without fixing the route across the
-# antimeridian; the largest such excess over every ordinary segment of the lattice is 4.0e-4
-# (measured, see calibrate()), so the accepted band is [1 - 1e-9, 1 + AM_EXCESS_CAP].
+# antimeridian; the largest such excess over every ordinary segment of the lattice is 3.97e-4
+# (measured in both tiers, see calibrate(); the unchanged implementation stays within
+# [1 - 1.4e-14, 1 + 7.7e-5] on the 5 004 antimeridian segments of the thorough tier), so the
+# accepted band is [1 - 1e-9, 1 + AM_EXCESS_CAP].
 AM_EXCESS_CAP = 2e-3
 
 
@@ -469,7 +471,6 @@ def dense_segment(a, b, grid, n=N_MICRO):
 
 def vertical_cells(x, edges):
     """Admissible labels of the altitude / time cell of a start value."""
-    n = len(edges)
     if x < edges[0] or x > edges[-1]:
         return ()
     k = bisect_right(edges, x) - 1
